@@ -73,6 +73,13 @@ func (s *server) Close(ctx context.Context) error {
 		accepting := atomic.LoadInt32(&s.accepting)
 		activeConn := 0
 		s.connections.Range(func(key, value interface{}) bool {
+			if c, ok := value.(*connection); ok && atomic.LoadUint32(&c.netFD.closed) != 0 {
+				// torn down before onAccept had registered its close callback
+				if cur, _ := s.connections.Load(key); cur == value {
+					s.connections.Delete(key)
+				}
+				return true
+			}
 			conn, ok := value.(gracefulExit)
 			if !ok || conn.isIdle() {
 				value.(Connection).Close()
@@ -191,19 +198,17 @@ func (s *server) onAccept(conn Conn) {
 	// store & register connection
 	nconn := new(connection)
 	nconn.init(conn, s.opts)
-	if !nconn.IsActive() {
-		return
-	}
 	fd := conn.Fd()
 	nconn.AddCloseCallback(func(connection Connection) error {
 		s.connections.Delete(fd)
 		return nil
 	})
 	s.connections.Store(fd, nconn)
-	// the connection may have been closed (by another poller) before the callback above was added,
-	// then nobody is left to remove it from the map.
 	if !nconn.IsActive() {
-		s.connections.Delete(fd)
+		// Closed already (by OnPrepare, or by its poller when the peer hung up). It stays tracked until
+		// its close callbacks have run: a handler may still be busy with it. If they ran before the
+		// callback above was added the entry is left over; Close drops entries whose descriptor is closed.
+		return
 	}
 	// the server may have been shut down while this connection was being accepted:
 	// Shutdown did not see it, so it has to be closed here.
